@@ -365,6 +365,9 @@ impl Check for C18 {
         out
     }
 
+    fn interference(&self) -> bool {
+        true
+    }
     fn required_probes(&self, _tier: Tier) -> Vec<&'static str> {
         vec![
             "probe:terminated_fields_0",
